@@ -30,6 +30,10 @@ func makeAvailableMemory(cache *MemCache, requiredMem, maxMem, minMem uint64) er
 	if requiredMem > maxMem {
 		requiredMem = maxMem
 	}
+	if size, ok := verifCacheSize(requiredMem); ok {
+		cache.Update(size)
+		return nil
+	}
 	stat, err := mem.VirtualMemory()
 	if err != nil {
 		return err
